@@ -217,7 +217,7 @@ Lemma pexec1_step_inv c t ch c' obs :
   exists th o, lookup t (c_thr c) = Some th /\
     pstep (c_par c) (parked_of (c_thr c)) (c_sh c) th ch = Some o /\ apply_out c t o = Some (c', obs).
 Proof.
-  cbn. destruct (lookup t (c_thr c)) as [th|]; [|discriminate].
+  unfold pexec1. destruct (lookup t (c_thr c)) as [th|]; [|discriminate].
   destruct (pstep _ _ _ th ch) as [o|] eqn:E; [|discriminate]. intros H. exists th, o. auto.
 Qed.
 
@@ -225,9 +225,9 @@ Qed.
 Lemma pexec1_ret_is_step c e c' obs t0 r :
   pexec1 c e = Some (c', obs) -> In (t0, ORet r) obs -> exists ch, e = PStep t0 ch.
 Proof.
-  destruct e as [t op|t ch|t|t|t]; cbn.
-  - destruct (lookup t (c_thr c)); [discriminate|]. destruct (Nat.ltb _ _); [|discriminate].
-    destruct op; [destruct (Nat.eqb _ _); [|discriminate]| | | |]; intros H; injection H as _ <-;
+  destruct e as [t op|t ch|t|t|t]; unfold pexec1.
+  - destruct (lookup t (c_thr c)); [discriminate|]. destruct (Nat.ltb t (i_base (c_par c))); [|discriminate].
+    destruct op as [id pp| | | |]; [destruct (Nat.eqb id (c_ntask c)); [|discriminate]| | | |]; intros H; injection H as _ <-;
       intros X; apply obs_of_no_ret in X; destruct X.
   - intros H X. destruct (pexec1_step_inv _ _ _ _ _ H) as (th & o & Hl & Hp & Ha).
     destruct (apply_out_obs_ret _ _ _ _ _ _ _ Ha X) as (-> & _). exists ch. reflexivity.
